@@ -274,8 +274,13 @@ class Flow:
         for i in place.index_locals():
             out.add(L(i))
         if place.has_deref():
-            for o in self.resolve(place):
+            objs = self.resolve(place)
+            for o in objs:
                 out.add(o if o[0] == "L" else ("SRC",) + o[1:])
+            if FIELD_SENSITIVE and self.b.kind != "closure" and 1 <= place.local <= self.b.arg_count and place.proj and place.proj[0] == "*" and objs and all(o[0] == "P" and o[1] == place.local for o in objs) and any(isinstance(e, dict) and "f" in e for e in place.proj):
+                # `(*p).f` with p a reference PARAMETER: what is read is the memory behind p (the SRC nodes, followed to
+                # the caller's argument field by field), not the pointer value as a whole
+                out.discard(L(place.local))
         return out
 
     def _place_reads_field(self, place, i):
@@ -290,6 +295,32 @@ class Flow:
         if not place.proj and FIELD_SENSITIVE:
             return {("LF", place.local, i)}
         return self._place_reads(place)
+
+    def pointee_field_reads(self, op, fname):
+        """reads of field `fname` of the local struct an operand points to (`&s`, s built by one aggregate), or None"""
+        if op.place is None or op.place.proj:
+            return None
+        l = op.place.local
+        for _ in range(4):
+            d = self.single_def(l)
+            rv = getattr(d, "rv", None) if d is not None else None
+            if rv is None:
+                return None
+            if rv.k == "use" and rv.ops and rv.ops[0].place is not None and not rv.ops[0].place.proj:
+                l = rv.ops[0].place.local
+                continue
+            if rv.k == "ref" and rv.place is not None and not rv.place.proj:
+                S = rv.place.local
+                for (dbb, dd) in self.b.assigns_to(S):
+                    rv2 = getattr(dd, "rv", None)
+                    if rv2 is not None and rv2.k == "aggr" and rv2.j.get("ak") == "adt" and fname in (rv2.j.get("fields") or []):
+                        return {("LF", S, (rv2.j.get("fields") or []).index(fname))}
+                return None
+            if rv.k == "ref" and rv.place is not None and rv.place.proj == ["*"]:
+                l = rv.place.local
+                continue
+            return None
+        return None
 
     def _op_reads_field(self, op, i):
         if op.place is None:
@@ -745,7 +776,7 @@ class Flows:
                 out.append((parent, s))
         return out
 
-    def slice(self, path, starts, up=True, down=True, max_nodes=400000, data_only=False, roots=(), skip_captures=False, sw_filter=None, max_stack=3, value_only=False, skip_selectors=False):
+    def slice(self, path, starts, up=True, down=True, max_nodes=400000, data_only=False, roots=(), skip_captures=False, sw_filter=None, max_stack=3, value_only=False, skip_selectors=False, stop_at=None):
         """inter-procedural backward slice with call-string contexts.
         returns set of (body_path, node).  `down`: True = descend from a local call into the
         callee's return value and from closure values into closure bodies; "clos" = closures only.
@@ -766,6 +797,8 @@ class Flows:
             seen.add(item)
             bp, n, stack = item
             out.add((bp, n))
+            if stop_at is not None and stop_at(bp, n):
+                continue  # a producer the caller wants to see but not look behind
             fl = self.of(bp)
             b = fl.b
             fld = None
@@ -860,6 +893,29 @@ class Flows:
                 idx = n[1]
                 if not (1 <= idx <= b.arg_count):
                     continue
+                if n[0] == "SRC" and FIELD_SENSITIVE and b.kind != "closure" and len(n) > 2 and n[2]:
+                    # memory behind a reference parameter, field by field: `(*p).f` with the caller passing `&s` of a
+                    # local struct s is field f of s
+                    fn_ = next((f_ for f_ in n[2] if f_ != "*"), None)
+                    sites = []
+                    if stack:
+                        if stack[-1][0] == "call":
+                            sites = [(stack[-1][1], stack[-1][2], stack[:-1])]
+                    elif up and bp not in roots:
+                        sites = [(cp, cbb, ()) for (cp, cbb) in self.callers().get(bp, ())]
+                    done_all = bool(sites) and fn_ is not None
+                    pend = []
+                    for (cp, cbb, st_) in sites:
+                        cf = self.of(cp)
+                        t = cf.b.blocks[cbb].term
+                        r_ = cf.pointee_field_reads(t.args[idx - 1], fn_) if (fn_ is not None and idx - 1 < len(t.args)) else None
+                        if r_ is None:
+                            done_all = False
+                            break
+                        pend += [(cp, r, st_) for r in r_]
+                    if done_all:
+                        work.extend(pend)
+                        continue
                 if n[0] == "LF" and not (b.kind == "closure" and idx == 1):
                     # field #fld of a by-value struct / tuple parameter: the same field of the argument
                     sites = []
